@@ -23,7 +23,12 @@ func visASCIIPunct(c byte) bool {
 func vc26_escape(n int) {
 	s := vsym_string(n)
 	var w vWriter
-	vassert(showInMarkdown(nil, &w, vStringer{s}) == nil, "no-error")
+	if vsym_bool() {
+		// a plain string goes through the renderer's default branch
+		vassert(showInMarkdown(venv(), &w, s) == nil, "no-error")
+	} else {
+		vassert(showInMarkdown(nil, &w, vStringer{s}) == nil, "no-error")
+	}
 	out := w.buf
 	// parse the output: backslash escapes, NBSP, raw bytes
 	var text []byte // reconstructed text with whitespace normalised to ' '
